@@ -14,6 +14,7 @@ RULE = ("explicit enumeration of alias states on real objects: for every public 
         "exactly as the call on distinct copies does, and operands that are not outputs must be unchanged; mpn functions: every overlap the "
         "manual permits. states = distinct (function, alias partition, allocation class, argument tuple); transitions = calls executed (aliased + "
         "reference).")
+RULE = RULE + (" " + 'Later additions: exceptions in the precondition table surface as harness errors (never skips); thorough tier uses the wide alphabets api.ZBIG/QBIG/FBIG.')
 ASSUMPTIONS = ["the reference side (distinct variables) is checked against value oracles by C01-C03, C07-C13",
                "combinations the manual excludes (same variable for two outputs; mpz_invert modulus of absolute value <= 1; zero divisors) are not generated"]
 BUDGET = {"quick": 420, "thorough": 2400}
